@@ -288,6 +288,20 @@ func (m *gmachine) exec(ev map[string]any) {
 			lc := (&sbom.NodeList{Nodes: []*sbom.Node{n}}).Copy()
 			res = append(res, map[string]any{"kind": "list-shared-contact", "content": len(lc.Nodes) == 1 && same(n.ProtoReflect(), lc.Nodes[0].ProtoReflect()), "equal": true, "shared": false})
 		}
+		{
+			// a contact chain five persons deep (and an external reference next to it): a copy is independent at every level
+			deep := &sbom.Person{Name: "level5", Email: "l5@example.org"}
+			for _, name := range []string{"level4", "level3", "level2", "level1"} {
+				deep = &sbom.Person{Name: name, Contacts: []*sbom.Person{deep, {Name: name + "-peer"}}}
+			}
+			n := &sbom.Node{Id: "deep", Suppliers: []*sbom.Person{deep}, Originators: []*sbom.Person{{Name: "o", Contacts: []*sbom.Person{{Name: "o1", Contacts: []*sbom.Person{{Name: "o2", Contacts: []*sbom.Person{{Name: "o3"}}}}}}}}}
+			c := n.Copy()
+			res = append(res, map[string]any{"kind": "node-deep-contacts", "content": same(n.ProtoReflect(), c.ProtoReflect()), "equal": n.Equal(c) && c.Equal(n), "shared": shared(n, c)})
+			pc := deep.Copy()
+			res = append(res, map[string]any{"kind": "person-deep-contacts", "content": same(deep.ProtoReflect(), pc.ProtoReflect()), "equal": true, "shared": shared(deep, pc)})
+			lc := (&sbom.NodeList{Nodes: []*sbom.Node{n}}).Copy()
+			res = append(res, map[string]any{"kind": "list-deep-contacts", "content": len(lc.Nodes) == 1 && same(n.ProtoReflect(), lc.Nodes[0].ProtoReflect()), "equal": true, "shared": len(lc.Nodes) == 1 && shared(n, lc.Nodes[0])})
+		}
 		if len(a.Edges) > 0 {
 			e := a.Edges[k%len(a.Edges)]
 			c := e.Copy()
